@@ -227,7 +227,8 @@ impl DynGroup {
             let matches: Vec<_> = entries
                 .iter()
                 .filter_map(|e| {
-                    if e.entry_match_no_index(&dg_filter_valid) {
+                    // A recycled entry (e.g. one arriving through a replication refresh) is not a member.
+                    if e.mask_recycled_ts().is_some() && e.entry_match_no_index(&dg_filter_valid) {
                         Some(e.get_uuid())
                     } else {
                         None
@@ -370,7 +371,10 @@ impl DynGroup {
                 .zip(post_entries.iter())
                 .filter_map(|(pre, post)| {
                     let pre_t = pre.entry_match_no_index(&dg_filter_valid);
-                    let post_t = post.entry_match_no_index(&dg_filter_valid);
+                    // An entry that is recycled or a tombstone after the change (it arrives so
+                    // through replication, or a uuid conflict forces re-assertion) is not a member.
+                    let post_t = post.mask_recycled_ts().is_some()
+                        && post.entry_match_no_index(&dg_filter_valid);
 
                     trace!(?post_t, ?force_cand_updates, ?pre_t);
 
